@@ -155,10 +155,18 @@ def invoiceVerifyOp (key : List UInt8) (tbl : String) (b : List UInt8) : String 
 /-- rebuild a signed invoice request from the offer bytes / an invoice from the request's or refund's
     bytes with the translated write plan, given the message's own records -/
 def mirrorOp (kind : String) (src payer own expOwn sig : List UInt8) : String :=
-  let plan := if kind == "req" then C18Mirror.invreqPlan else C18Mirror.invoicePlan
+  let plan := if kind == "req" then C18Mirror.invreqPlan else if kind == "sinv" then C18Mirror.staticInvoicePlan else C18Mirror.invoicePlan
   match OfferMirror.build plan src ⟨payer, own, expOwn, sig⟩ with
   | none => "err malformed"
   | some b => hex b
+
+/-- sign a RE-PARSED unsigned invoice request / invoice (TryFrom<Vec<u8>> then sign): the signed bytes
+    under the translated split range, and the verdict "ascending, parses back to the same records" -/
+def resignOp (kind : String) (b sig : List UInt8) : String :=
+  let p := if kind == "req" then C18Mirror.invreqSplitIn else C18Mirror.invoiceSplitIn
+  match OfferMirror.signReparsed p b sig with
+  | none => "err malformed"
+  | some out => OfferMirror.resignVerdict p b sig ++ " " ++ hex out
 
 end C18
 
@@ -193,6 +201,7 @@ def c18b12 : Drv where
     | ["offerverify", key, nonce, tbl, b] => ((), C18.offerVerifyOp (unhex key) (unhex nonce) tbl (unhex b))
     | ["mirror", kind, src, payer, own, expOwn, sig] =>
       ((), C18.mirrorOp kind (unhex src) (unhex payer) (unhex own) (unhex expOwn) (unhex sig))
+    | ["resign", kind, b, sig] => ((), C18.resignOp kind (unhex b) (unhex sig))
     | ["mkeys", k, key, iv, md, pk, tbl, tlv] => ((), C18.mkeys (k == "p") (unhex key) (unhex iv) (unhex md) (unhex pk) tbl (unhex tlv))
     | ["mhmac", k, key, iv, md, tlv] => ((), C18.mhmac (k == "p") (unhex key) (unhex iv) (unhex md) (unhex tlv))
     | _ => ((), "bad-op")
